@@ -1,5 +1,6 @@
 import CTV.Basic.Bytes
 import CTV.Rfc6962.Merkle
+import CTV.Gen.Witness
 /-!
 # Model of the CT witness (internal/witness/cmd/witness/internal/witness/witness.go)
 
@@ -32,6 +33,14 @@ inductive Raw (Hash Sig : Type) where
   | garbage
   | sth (s : Sth Hash Sig)
 
+/-- The bytes `signSTH` signs and `verifier.VerifySignature` checks: `tls.Marshal(ct.SignedTreeHead)` —
+    `tree_size(8) timestamp(8) sha256_root_hash[32] hash_alg(1) sig_alg(1)
+    signature<0..2^16-1> log_id[32]` (the struct has no tls tags and the untagged `Version` enum contributes no byte; layout as observed and compared with
+    the real bytes on every run, `cosin` lines). The log ID is the one filled in by `parse`. -/
+def cosigInput (size ts : Nat) (root : Bytes) (hashAlg sigAlg : Nat) (sig logId : Bytes) : Bytes :=
+  beEnc 8 size ++ beEnc 8 ts ++ root ++
+    [UInt8.ofNat hashAlg, UInt8.ofNat sigAlg] ++ beEnc 2 sig.length ++ sig ++ logId
+
 inductive ParseErr where
   | notFound   -- log not configured
   | badJson
@@ -49,8 +58,9 @@ structure Env (Hash Sig CoSig : Type) where
   /-- verdict of the configured `SignatureVerifier` of this log on the TreeHeadSignature input
       `(timestamp, tree_size, root)` and the signature -/
   verify : LogId → Nat → Nat → Hash → Sig → Bool
-  /-- `signSTH` on the parsed STH (log ID filled in) -/
-  cosign : Sth Hash Sig → CoSig
+  /-- `signSTH` on the parsed STH (log ID filled in); `none` = signing fails (`New` accepts any PKCS#8
+      key, `tls.CreateSignature` only RSA and ECDSA keys) -/
+  cosign : Sth Hash Sig → Option CoSig
   /-- inner-node hash used by `proof.VerifyConsistency` -/
   nodeH : Hash → Hash → Hash
 
@@ -64,6 +74,7 @@ inductive ErrKind where
   | notFound            -- codes.NotFound: unknown log (Update) / nothing stored (GetSTH)
   | parse (e : ParseErr) -- the submitted STH was refused by `parse`
   | stored              -- the stored STH no longer parses (unreachable, see `C19.stored_signed`)
+  | sign                -- `signSTH` failed
 deriving DecidableEq, Repr
 
 /-- What a call returns. -/
@@ -107,6 +118,15 @@ def parse (env : Env Hash Sig CoSig) (id : LogId) (raw : Raw Hash Sig) : Except 
       else if !env.verify id s.ts s.size s.root s.sig then .error .badSig
       else .ok { s with idField := some idh }
 
+/-- The two accepting branches of `Update`: write + commit the row and cosign — in the order the code
+    has (`Gen.witnessSignsBeforeCommit`, regenerated from witness.go on every run). When signing fails
+    after the commit, the caller gets an error although the row has changed. -/
+def accept (env : Env Hash Sig CoSig) (db : Db Hash Sig) (id : LogId) (nextRaw next : Sth Hash Sig) :
+    Db Hash Sig × Reply Hash Sig CoSig :=
+  match env.cosign next with
+  | some c => (db.set id nextRaw, .cosigned next c)
+  | none => (if Gen.witnessSignsBeforeCommit then db else db.set id nextRaw, .err .sign)
+
 /-- `Witness.Update`. -/
 def update (env : Env Hash Sig CoSig) (db : Db Hash Sig) (id : LogId) (raw : Raw Hash Sig) (pf : List Hash) :
     Db Hash Sig × Reply Hash Sig CoSig :=
@@ -118,7 +138,7 @@ def update (env : Env Hash Sig CoSig) (db : Db Hash Sig) (id : LogId) (raw : Raw
   | .error e => (db, .err (.parse e))
   | .ok next =>
     match db id with
-    | none => (db.set id nextRaw, .cosigned next (env.cosign next))      -- trust on first use
+    | none => accept env db id nextRaw next      -- trust on first use
     | some prevRaw =>
       match parse env id (.sth prevRaw) with
       | .error _ => (db, .err .stored)
@@ -127,7 +147,7 @@ def update (env : Env Hash Sig CoSig) (db : Db Hash Sig) (id : LogId) (raw : Raw
         else if next.size = prev.size then
           (if next.root ≠ prev.root then (db, .held prevRaw true) else (db, .held prevRaw false))
         else if Merkle.verifyConsistency env.nodeH prev.size next.size pf prev.root next.root then
-          (db.set id nextRaw, .cosigned next (env.cosign next))
+          accept env db id nextRaw next
         else (db, .held prevRaw true)
 
 /-- `Witness.GetSTH`. -/
@@ -137,7 +157,10 @@ def getSTH (env : Env Hash Sig CoSig) (db : Db Hash Sig) (id : LogId) : Reply Ha
   | some raw =>
     match parse env id (.sth raw) with
     | .error e => .err (.parse e)
-    | .ok s => .cosigned s (env.cosign s)
+    | .ok s =>
+      match env.cosign s with
+      | some c => .cosigned s c
+      | none => .err .sign
 
 /-- `Witness.GetLogs`: the log IDs that have a row (only configured logs can have one; the order
     of rows is not specified, the harness sorts). -/
